@@ -551,10 +551,11 @@ Lemma req_finish_no_panic https dh all s : scan_ok all s -> req_finish https dh 
 Proof.
   intros (H1 & H2 & H3). unfold req_finish.
   destruct (Nat.leb_spec (sc_pe s) (sc_ps s)) as [|Hlt]; [discriminate|].
-  destruct (match hm_get host_name (sc_headers s) with Some h => Some h | None => dh end) as [host|]; [|discriminate].
+  generalize (usable_host (match hm_get host_name (sc_headers s) with Some h => Some h | None => dh end)). intros host.
   rewrite slice_chk_ok by lia. cbn [obind].
+  destruct (no_host host _); [discriminate|].
   destruct (negb (method_ok (sc_method s))); [discriminate|].
-  destruct (parse_uri https host _) as [[[auth path] query]|]; [|discriminate].
+  destruct (uri_of https host _) as [[[auth path] query]|]; [|discriminate].
   destruct (version_code (sc_ver s)); [|discriminate].
   destruct (sc_end s) as [|body_start] eqn:Ee; [lia|].
   rewrite slice_chk_ok by lia. discriminate.
@@ -622,10 +623,10 @@ End Reader.
 Lemma sanitize_path_no_panic p : PathSan.sanitize_path p <> Panic.
 Proof. destruct (PathSanProofs.sanitize_path_total p) as [-> | ->]; discriminate. Qed.
 
-Lemma choose_host_no_panic ops c sni hh :
-  Hosts.build ops = Ok c -> Hosts.choose_host Hosts.V1 c sni hh <> Panic.
+Lemma choose_host_no_panic ops c b sni hh authority :
+  Hosts.build ops = Ok c -> Hosts.choose_host_uri b Hosts.V1 c sni hh authority <> Panic.
 Proof.
-  intros Hb. destruct (HostsProofs.choose_host_reference ops c sni hh Hb) as (ch & -> & _). discriminate.
+  intros Hb. destruct (HostsProofs.choose_host_uri_total ops c b sni hh authority Hb) as (ch & ->). discriminate.
 Qed.
 
 Lemma conn_step_no_panic checked caching pg cache q :
@@ -664,7 +665,7 @@ Proof.
   intros Hb Hl Hf Hc. unfold request_path.
   destruct (Http1Read.serve grow mode https dh max_len limit stream sched) as [sv|e|] eqn:Es; try discriminate.
   2:{ exfalso. eapply Reader.serve_no_panic; eassumption. }
-  destruct (Hosts.choose_host Hosts.V1 c None _) as [[|h]|e|] eqn:Eh; try discriminate.
+  destruct (Hosts.choose_host_uri true Hosts.V1 c None _ _) as [[|h]|e|] eqn:Eh; try discriminate.
   2:{ exfalso. eapply choose_host_no_panic; eassumption. }
   destruct (limiter_decision_ok checked lcfg t0 lh addr now Hl) as [a ->]. destruct a; try discriminate.
   destruct (PathSan.sanitize_path _) as [[]|e|] eqn:Ep; try discriminate.
